@@ -81,6 +81,10 @@ void vf_clear_uncaught(void) { vf_exc_pending = 0; }
 extern int vf_exc_kind_of(void *ti);
 int vf_uncaught_kind(void) { if (!vf_exc_pending) return 0; return vf_exc_kind_of(vf_exc_type); }
 
+void vf_assert_fail(const char *e, const char *f, unsigned l, const char *fn) { (void)e; (void)f; (void)l; (void)fn; VF_FAIL("library assert() failed: process abort"); }
+void vf_abort_call(void) { VF_FAIL("abort() called: process abort"); }
+void vf_exit_call(int c) { (void)c; VF_FAIL("exit() called from library code"); }
+
 /* ---------------- allocation ---------------- */
 void *_Znwm(u64 n) { void *p = malloc(n ? n : 1);
 #ifdef __CPROVER__
